@@ -316,6 +316,22 @@ theorem codonAlign_ungapped_rows (p nt b : Seq) (h : codonAlignRow p nt = some b
       exact hu1.symm
     · simp at h
 
+/-- **`CodonAlign` accepts a row exactly when its nucleotide sequence holds three nucleotides per residue and at
+most two more** -/
+theorem codonAlign_error_iff (p nt : Seq) :
+    codonAlignRow p nt = none ↔
+      (nt.length < 3 * (ungap p).length ∨ 3 * (ungap p).length + 2 < nt.length) := by
+  unfold codonAlignRow
+  by_cases h : 3 * (ungap p).length ≤ nt.length
+  · obtain ⟨b, hb⟩ := Proofs.TranslateAlign.codonThread_some p nt h
+    rw [hb]
+    simp only [List.length_drop]
+    by_cases h2 : nt.length - 3 * (ungap p).length ≤ 2
+    · rw [if_pos h2]; simp; omega
+    · rw [if_neg h2]; simp; omega
+  · rw [Proofs.TranslateAlign.codonThread_none p nt (by omega)]
+    simp; omega
+
 /-- **threading nucleotides onto a gapped copy of their own translation succeeds, and the codon alignment
 translates back to that protein row**, under each of the three codes -/
 theorem codonAlign_translates_back (codeId : Int) (nt p q : Seq)
@@ -501,25 +517,31 @@ theorem byRef_no_gaps_counterexample :
     translateSeq 0 0 [65, 67] = none ∧ translateFrames NUCLEOTIDS 0 0 [("r", [65, 67]), ("s", [65, 67])] = none := by
   decide
 
-/-- **frame 0: the reference row, gaps removed, is a prefix of the translation of the ungapped reference**
-(for every gap placement; the walk stops at the first incomplete codon and drops nothing of the reference
-in between) -/
+/-- **the reference row, gaps removed, is a prefix of the translation of the ungapped reference** read from
+column `phase` on (for every gap placement; the walk stops at the first incomplete codon and drops nothing of
+the reference in between) -/
+theorem byRef_ref_row_prefix_from (alphabet phase : Nat) (codeId : Int) (refName : String) (rows out : List (String × Seq))
+    (h : translateByReference alphabet phase codeId refName rows = some out) :
+    ∃ code r o, geneticCode codeId = some code ∧ findRow refName rows = some r ∧ findRow refName out = some o ∧
+      ungap o <+: codonsFrom code (ungap (r.drop phase)) := by
+  obtain ⟨refId, code, hid, hcode, rfl⟩ := byRef_unfold alphabet phase codeId refName rows out h
+  obtain ⟨n, hn, rfl⟩ := geneticCode_tbl codeId code hcode
+  have hf := Proofs.TranslateRef.findRow_byIdx refName
+    ((refSegs (tbl n) (rows.getD refId ("", [])).2.length ((rows.getD refId ("", [])).2.drop phase)).flatMap refChunk)
+    (fun s => compRow (tbl n) (refSegs (tbl n) (rows.getD refId ("", [])).2.length ((rows.getD refId ("", [])).2.drop phase)) (s.drop phase))
+    rows 0 refId hid
+  refine ⟨tbl n, (rows.getD refId ("", [])).2, _, hcode, ?_, hf.1, ?_⟩
+  · simpa using hf.2
+  · exact Proofs.TranslateRef.refRow_prefix (tbl n)
+      (fun x y z hx _ _ hg => hx ((codon_gap_iff n hn x y z).mp hg).1)
+      (rows.getD refId ("", [])).2.length ((rows.getD refId ("", [])).2.drop phase)
+
+/-- **frame 0: the reference row, gaps removed, is a prefix of the translation of the ungapped reference** -/
 theorem byRef_ref_row_prefix (alphabet : Nat) (codeId : Int) (refName : String) (rows out : List (String × Seq))
     (h : translateByReference alphabet 0 codeId refName rows = some out) :
     ∃ code r o, geneticCode codeId = some code ∧ findRow refName rows = some r ∧ findRow refName out = some o ∧
       ungap o <+: codonsFrom code (ungap r) := by
-  obtain ⟨refId, code, hid, hcode, rfl⟩ := byRef_unfold alphabet 0 codeId refName rows out h
-  obtain ⟨n, hn, rfl⟩ := geneticCode_tbl codeId code hcode
-  have hf := Proofs.TranslateRef.findRow_byIdx refName
-    ((refSegs (tbl n) (rows.getD refId ("", [])).2.length ((rows.getD refId ("", [])).2.drop 0)).flatMap refChunk)
-    (fun s => compRow (tbl n) (refSegs (tbl n) (rows.getD refId ("", [])).2.length ((rows.getD refId ("", [])).2.drop 0)) (s.drop 0))
-    rows 0 refId hid
-  refine ⟨tbl n, (rows.getD refId ("", [])).2, _, hcode, ?_, hf.1, ?_⟩
-  · simpa using hf.2
-  · have := Proofs.TranslateRef.refRow_prefix (tbl n)
-      (fun x y z hx _ _ hg => hx ((codon_gap_iff n hn x y z).mp hg).1)
-      (rows.getD refId ("", [])).2.length (rows.getD refId ("", [])).2
-    simpa using this
+  simpa using byRef_ref_row_prefix_from alphabet 0 codeId refName rows out h
 
 /-- `TranslateByReference` fails exactly for an empty or unknown reference name, a non-nucleotide alphabet or
 an unknown genetic code -/
